@@ -3,8 +3,8 @@
 Copies /tmp/mut/<ID>/out/<mN>/{patch.diff,demo_test.go,notes.md,confirm.log} to /verif/seeded/<ID>-<mN>/ with meta.json."""
 import sys, os, shutil, json, re
 pid, m, caught, missed, desc = sys.argv[1:6]
-src = "/tmp/mut/%s/out/%s" % (pid, m)
-dst = "/verif/seeded/%s-%s" % (pid, m)
+src = os.environ.get("MUTROOT", "/tmp/mut") + "/%s/out/%s" % (pid, m)
+dst = "/verif/seeded/%s-%s%s" % (pid, os.environ.get("MUTTAG", ""), m)
 os.makedirs(dst, exist_ok=True)
 for f in ("patch.diff", "demo_test.go", "notes.md", "confirm.log"):
     if os.path.exists(os.path.join(src, f)):
